@@ -73,6 +73,14 @@ def _fz(tier, n):
 
 
 def cases(tier):
+    # grey (apodised / soft-edged) masks: every mask over {0, 1/2, 1} on 2x2 and 3x3
+    yield Case("grey:n=2:codes=0-80", {"kind": "grey", "n": 2, "lo": 0, "hi": 81})
+    for lo in range(0, 3 ** 9, 2500 if tier == "quick" else 1000):
+        hi = min(3 ** 9, lo + (2500 if tier == "quick" else 1000))
+        # quick: every 5th mask of the 19683 (3 is coprime to 5, so every cell takes every value in every
+        # context of its neighbours' low digits); thorough: all of them
+        yield Case("grey:n=3:codes=%d-%d" % (lo, hi - 1), {"kind": "grey", "n": 3, "lo": lo, "hi": hi,
+                                                           "step": 5 if tier == "quick" else 1})
     yield Case("storage", {"kind": "storage"})
     step = _step(tier)
     for n in _sizes(tier):
@@ -117,6 +125,8 @@ def cases(tier):
 
 
 def evaluate(p):
+    if p["kind"] == "grey":
+        return _grey(p)
     if p["kind"] == "storage":
         return _storage(p)
     kind = p["kind"]
@@ -328,14 +338,16 @@ class _Agg(object):
                     tol=1e-12 if meas is not None else None)
 
 
-def _check_selection(o, agg, wfslib, mask_int, subaps_list, label):
-    """all thresholds x sub-aperture counts for one mask; records into the aggregator"""
+def _check_selection(o, agg, wfslib, mask_int, subaps_list, label, unit=1):
+    """all thresholds x sub-aperture counts for one mask; records into the aggregator.
+    The mask handed to the library is mask_int / unit (unit 2: grey masks with values 0, 1/2, 1)."""
     n = mask_int.shape[0]
-    mask = mask_int.astype(float)
+    mask = mask_int.astype(float) / unit
     for s in subaps_list:
         ones, size = geom.cell_counts(mask_int, s)
         if (size == 0).any():
             continue            # empty cells: outside the domain
+        size = size * unit
         sp = n / float(s)
         means = ones / size      # correctly rounded quotients of integers
         prev = None
@@ -485,4 +497,24 @@ def _storage(p):
             o.stat("lib_calls", 1)
             o.check("circle_accepts_numpy_scalars", got.shape == want.shape and numpy.array_equal(got, want),
                     sub="r=%g:n=%d:%s" % (r, nn, tname))
+    return o
+
+
+def _grey(p):
+    """selection, fill factors and the recomputed fill factors on masks that are not 0/1: the mean mask value
+    of a cell is the quantity the statement talks about, for apodised or soft-edged pupils too"""
+    from aotools.wfs import wfslib
+    o = Out()
+    n = p["n"]
+    agg = _Agg()
+    for code in range(p["lo"], p["hi"], p.get("step", 1)):
+        digits = []
+        c = code
+        for _ in range(n * n):
+            digits.append(c % 3)
+            c //= 3
+        mi = numpy.array(digits, dtype=numpy.int64).reshape(n, n)
+        _check_selection(o, agg, wfslib, mi, [s for s in range(1, n + 1)], "grey code %d" % code, unit=2)
+    agg.flush(o)
+    o.stat("nontrivial", p["hi"] - p["lo"])
     return o
